@@ -535,6 +535,7 @@ PROPS["C08"] = dict(
     level_note=LEVEL_NOTE,
     assumptions=["fingerprints of distinct keys differ (hash injective on the keys of a history); the duplicate-key corner is stated separately"],
 )
+from pred_c09c import pred_c09c  # noqa: E402  (prime generators: independent Miller-Rabin and the relations)
 from pred_c09b import pred_c09b  # noqa: E402  (interpolation, generated primes, back-end conversion, big-integer wrapper)
 
 
@@ -544,6 +545,9 @@ def pred_c09_all(line, st):
         return pred_c10(line, st)
     if line.startswith(("arith2.", "prop.arith2.")):
         return pred_c09b(line, st)
+    if line.startswith(("primegen.", "prop.primegen ")):
+        st["primegen"] = st.get("primegen", 0) + 1
+        return pred_c09c(line, st)
     return pred_c09(line, st)
 
 
@@ -551,7 +555,8 @@ PROPS["C09"] = dict(
     module="TmcgProps.C09",
     areas=[("arith", {"quick": 600, "thorough": 10000}, [], "san"),
            ("rabin", {"quick": 1, "thorough": 1}, ["--only-sqrt", "--sqrt-primes", "150"], "san"),
-           ("arith2", {"quick": 200, "thorough": 150}, [], "san")],
+           ("arith2", {"quick": 200, "thorough": 150}, [], "san"),
+           ("primegen", {"quick": 24, "thorough": 96}, [], "san")],
     obligations=[("Tmcg.C09.powm_is_power", "full"), ("Tmcg.C09.powm_neg_is_inverse_power", "full"),
                  ("Tmcg.C09.spowm_eq_powm", "full"), ("Tmcg.C09.spowm_refusals", "full"),
                  ("Tmcg.C09.fpowm_eq_powm", "full"), ("Tmcg.C09.fspowm_eq_powm", "full"),
@@ -559,17 +564,19 @@ PROPS["C09"] = dict(
                  ("Tmcg.C09.fpowm_exponent_too_large", "full"), ("Tmcg.C09.fpowm_beyond_table_is_zero", "full"),
                  ("Tmcg.C09.baseblind_eq_powm", "full"),
                  ("Tmcg.C09.sqrtmp_sq_all", "full"), ("Tmcg.C09.sqrtmnR_sq", "full"), ("Tmcg.C09.sqrtmnFastAll_sq", "full")]
-                + [("Tmcg.C09." + n, "full") for n in ['interp_reproduces_points', 'interp_collision_refused', 'interp_bad_arguments', 'primeRelOk_safe', 'primeRelOk_safe2g', 'primeRelOk_blum', 'primeRelOk_schnorr', 'primeRelOk_prefix', 'primeRelOk_ordinary', 'two_generates', 'mpiRoundtrip_lossless', 'mpiRoundtrip_total', 'bigint_backend_independent', 'bigint_secure_eq_plain', 'secure_refuses_iff', 'bigintSeq_backend_independent', 'div_mod_nonneg']],
+                + [("Tmcg.C09." + n, "full") for n in ['interp_reproduces_points', 'interp_collision_refused', 'interp_bad_arguments', 'primeRelOk_safe', 'primeRelOk_safe2g', 'primeRelOk_blum', 'primeRelOk_schnorr', 'primeRelOk_prefix', 'primeRelOk_ordinary', 'two_generates', 'mpiRoundtrip_lossless', 'mpiRoundtrip_total', 'bigint_backend_independent', 'bigint_secure_eq_plain', 'secure_refuses_iff', 'bigintSeq_backend_independent', 'div_mod_nonneg',
+                                                    'safe_prime', 'sprime_rel', 'sprime2g_rel', 'sprime3mod4_rel', 'sprimeNaive_rel', 'sprimeNoninc_rel', 'lprime_rel', 'lprimePrefix_rel',
+                                                    'oprime_rel', 'oprimeNoninc_rel', 'searchInc_none_iff', 'searchNaive_none_iff', 'searchOrd_none_iff', 'searchInc_mono']],
     predicate=pred_c09_all,
     level_text="Theorems in Lean 4: every modular-exponentiation variant of the model (constant-time with dummy operations, table-based, always-multiply, unsigned, base-blinded) equals plain "
                "modular exponentiation for every base coprime to the modulus and every exponent sign; refusals are exceptions, never wrong values. Model vs real functions: exhaustive small moduli + random big cases. "
                "Square roots: all three branches modulo a prime (for every non-residue draw), CRT combination modulo distinct odd primes and the fast variant for Blum moduli square back to their argument (theorems), "
                "exhaustive over all primes below 150 with all residues and all products of two primes below 60 in every run. "
                "Interpolation: the model of tmcg_interpolate_polynom reproduces the points for pairwise distinct abscissae modulo a prime and refuses colliding ones (theorems). "
-               "Generated primes: every generator function is called for several sizes and its output judged by an independent Miller-Rabin and the defining relations (predicate), the relation checks themselves are model-vs-code; no theorem about the random search. "
+               "Generated primes: every generator function is called for several sizes and its output judged by an independent Miller-Rabin and the defining relations (predicate), the relation checks themselves are model-vs-code. The random searches of all eleven generators (sprime, smprime, sprime2g, sprime3mod4, the naive and non-incremental variants, lprime, lprime_prefix, oprime, oprime_noninc) are modelled as functions of the coin stream and the primality oracle (area primegen: every generated prime reproduced from the logged coins and oracle answers): whenever a generator returns, its output satisfies its relation, the oracle only having to be right about the returned numbers (for the safe-prime tests primality of p = 2q+1 is proved from the Lucas-type step); a search ends exhausted only when every candidate within the fuel failed. "
                "mpz<->mpi conversion lossless on the supported range; the big-integer wrapper: one Int model for both back ends, 40 operators and operation sequences on both back ends against it.",
     level_note=LEVEL_NOTE + " GMP's mpz_powm/mpz_invert/mpz_jacobi are modelled and the model layer itself is compared with GMP.",
-    assumptions=["generated primes: relations and sizes are checked on the generated values (predicate + model of the relation check); the random search itself is not modelled",
+    assumptions=["generated primes: mpz_probab_prime_p is an oracle; the relation theorems need it to be right about the returned numbers only; the coin-consuming redraw loops have specification theorems but no exhaustion characterisation",
                  "the random members of TMCG_Bigint are not covered"],
 )
 
